@@ -19,6 +19,8 @@ SPECS = [
     {'conv': 'shoc_standard', 'ny': 3, 'nx': 4, 'node_holes': [[0, 0], [2, 2]]}, {'conv': 'shoc_standard', 'ny': 4, 'nx': 2},
     {'conv': 'ugrid', 'ny': 2, 'nx': 3, 'split': [[0, 1]], 'tables': ['edge_node'], 'start_index': 1},
     {'conv': 'ugrid', 'ny': 3, 'nx': 3, 'split': [[0, 0]], 'merge': [[1, 0]], 'face_coords': True},
+    # decreasing axes without stored bounds (latitude north to south): cell edges are synthesised, in the order of the axis
+    {'conv': 'cf1d', 'ny': 4, 'nx': 3, 'descending_lat': True}, {'conv': 'cf1d', 'ny': 3, 'nx': 4, 'descending_lon': True, 'nonuniform': True},
     # bounds whose grid dimensions are stored the other way round than latitude / longitude (non-square grid)
     {'conv': 'cf2d', 'ny': 3, 'nx': 4, 'bounds': 'vars', 'bounds_transposed': True},
 ]
